@@ -7,6 +7,7 @@ import (
 	"strings"
 
 	"github.com/herohde/morlock/pkg/board"
+	"github.com/herohde/morlock/pkg/eval"
 )
 
 func init() {
@@ -212,6 +213,33 @@ func casesAttacks(c *caseCtx) {
 	}
 	for _, s := range genStates(c, c.scale(600, 12000)) {
 		emitQueries(c, s)
+	}
+	// eval.FindCapture / eval.FindPins
+	for _, s := range genStates(c, c.scale(300, 6000)) {
+		for k := 0; k < 4; k++ {
+			side := board.Color(c.r.Intn(2))
+			sq := board.Square(c.r.Intn(64))
+			var toks []string
+			for _, pl := range eval.FindCapture(s.pos, side, sq) {
+				toks = append(toks, fmt.Sprintf("%d:%d", pl.Piece, pl.Square))
+			}
+			if len(toks) == 0 {
+				toks = []string{"-"}
+			}
+			c.emit("captures %s %d %d => %s", posTok(s.pos), side, sq, strings.Join(toks, ","))
+		}
+		for _, piece := range []board.Piece{board.King, board.Queen} {
+			for side := board.White; side <= board.Black; side++ {
+				var toks []string
+				for _, pin := range eval.FindPins(s.pos, side, piece) {
+					toks = append(toks, fmt.Sprintf("%d:%d:%d", pin.Attacker, pin.Pinned, pin.Target))
+				}
+				if len(toks) == 0 {
+					toks = []string{"-"}
+				}
+				c.emit("pins %s %d %d => %s", posTok(s.pos), side, piece, strings.Join(toks, ","))
+			}
+		}
 	}
 }
 
